@@ -81,3 +81,16 @@ Section Mon.
 End Mon.
 
 Definition judge (c : pcase) : bool * bool := (agree c, monitor c).
+
+(** m3r: a refusal the pass reaches is reported. Where no third party acts and nothing is injected, the model's
+    pass ends in a collision error exactly when the phase loop reaches a listed object that must be refused
+    (props/C01.v C01_collision_error_sound names that object); the implementation's error must then be a collision
+    error as well - it is what UpdateObjectSetOrPhaseStatusFromError recognises and turns into
+    Available=False/CollisionDetected. Consults the (fault-free) model, hence kept out of [monitor], which also
+    judges the fault stages. *)
+Definition ores_collision (r : ores) : bool :=
+  match r with OErr (Some ErrNotPrevious) | OErr (Some ErrRevCollision) => true | _ => false end.
+Definition m3r (c : pcase) : bool :=
+  negb (is_nil (pc_between c)) || pc_teardown c ||
+  negb (ores_collision (snd (model_run c))) || ores_collision (pc_res c).
+Definition judge_r (c : pcase) : bool * bool := (agree c, monitor c && m3r c).
